@@ -4,6 +4,9 @@
 (* GroupBy.head/tail/nth(values, n, keep_input_index=True) call.            *)
 (*  small mode: T = [kind, n, keys, idx, rows, ridx]: one Visit action per  *)
 (*     row of the scan, then Return compares the selected rows.             *)
+(*  by-group mode (keep_input_index=False): T = [kind, n, keys, sort, rows,  *)
+(*     glabels, gpos]: rows listed group by group (label order, or first    *)
+(*     appearance for sort=False), numbered within the selection.           *)
 (*  rle mode (scaled replays at the 2^7 / 2^15 / 2^16 counter widths):      *)
 (*     T = [kind, n, runs, rows]: keys given as runs <<group, length>>; the *)
 (*     selection is compared with the definition evaluated on the runs.     *)
@@ -34,6 +37,28 @@ SmallOk ==
   /\ \A a, b \in 1..Len(T.rows) :                                 \* original relative order within a group
        (a < b /\ keys[T.rows[a] + 1] = keys[T.rows[b] + 1]) => T.rows[a] < T.rows[b]
 
+(* ---- keep_input_index = FALSE: rows listed group by group, labelled (group label, position within the selection) ---- *)
+IsByGroup == "glabels" \in DOMAIN T
+FirstPos(g) == CHOOSE i \in 1..Len(keys) : keys[i] = g /\ \A j \in 1..(i - 1) : keys[j] # g
+Before(g, h) == IF T.sort = 1 THEN g < h ELSE FirstPos(g) < FirstPos(h)        \* listing order of the groups
+ByGroupOk ==
+  /\ T.out = "ok"
+  /\ scanned = Len(keys)
+  /\ {T.rows[j] + 1 : j \in 1..Len(T.rows)} = picked
+  /\ Distinct(T.rows)
+  /\ Len(T.glabels) = Len(T.rows) /\ Len(T.gpos) = Len(T.rows)
+  /\ \A j \in 1..Len(T.rows) :
+        /\ T.glabels[j] = keys[T.rows[j] + 1]                                   \* labelled with its own group
+        \* nth: no position level.  head: numbered 0, 1, .. from the first selected row of the group.  tail: the n slots are
+        \* right-aligned (the last row of the group is n-1), as the backward scan fills them (no property states the numbering:
+        \* this is what the code does)
+        /\ T.gpos[j] = CASE kind = "nth" -> -1
+                         [] kind = "head" -> Cardinality({x \in picked : keys[x] = keys[T.rows[j] + 1] /\ x < T.rows[j] + 1})
+                         [] kind = "tail" -> narg - Cardinality({x \in picked : keys[x] = keys[T.rows[j] + 1] /\ x >= T.rows[j] + 1})
+  /\ \A a, b \in 1..Len(T.rows) : a < b =>
+        \/ Before(T.glabels[a], T.glabels[b])
+        \/ (T.glabels[a] = T.glabels[b] /\ T.rows[a] < T.rows[b])
+
 (* ---- definition on run-length encoded keys ---- *)
 RECURSIVE RunStarts(_, _, _)
 RunStarts(runs, j, acc) == IF j > Len(runs) THEN <<>> ELSE <<acc>> \o RunStarts(runs, j + 1, acc + runs[j][2])
@@ -58,7 +83,7 @@ RleOk == /\ T.out = "ok"
          /\ Distinct(T.rows)
 
 TraceReturn == /\ tpc = "scan"
-               /\ IF IsRle THEN RleOk ELSE SmallOk
+               /\ IF IsRle THEN RleOk ELSE IF IsByGroup THEN ByGroupOk ELSE SmallOk
                /\ PrintT(<<"ACCEPT", tid>>)
                /\ tpc' = "done"
                /\ UNCHANGED <<svars, tid>>
